@@ -273,7 +273,7 @@ def apply_contract(ip: Interp, con: Contract, fn, args, kwargs, bound_cls) -> SV
         g = eval_clause(ip, f, locs, 'goal')
         if not z3.is_true(z3.simplify(g)):
             st.oblige(f'pre:{con.target}.{name}', g)
-        st.assume(g)
+        st.fact(g)
     # 2. exceptional exits
     for exc, name, f in con.raises:
         c = eval_clause(ip, f, locs)
@@ -284,6 +284,9 @@ def apply_contract(ip: Interp, con: Contract, fn, args, kwargs, bound_cls) -> SV
     if not con.pure and con.modifies is not None:
         locs_list = eval_modifies(ip, con, locs)
         havoc(ip, locs_list)
+        # the callee may allocate: its objects take the next block of references (assumption
+        # A-ALLOC: a callee under contract allocates fewer than 2^20 objects)
+        st.nalloc += 1 << 20
     elif not con.pure and con.modifies is None:
         raise Unsupported(f'contract of {con.target} declares neither pure nor modifies')
     # 4. result
@@ -667,6 +670,10 @@ def congruence_lemmas(ip: Interp, shared) -> List[Any]:
             s = mk_solver(800)
             rng = z3.And(0 <= K, K < ca.length)
             s.add(rng)
+            if ca.noraise is not None:
+                s.add(ca.noraise)
+            if cb.noraise is not None:
+                s.add(z3.substitute(cb.noraise, (cb.K, K)))
             s.add(z3.Not(z3.And(ca.cond == cb_cond, z3.Implies(ca.cond, ca.val.e == cb_val))))
             if s.check() == z3.unsat:
                 if [x.get_id() for x in ca.ctx] != [x.get_id() for x in cb.ctx]:
